@@ -50,9 +50,10 @@ ENC = {"size": geo.enc_size, "point": geo.enc_point, "stretch": geo.enc_stretch,
 def grids(rng, tier):
     g = geo.G()
     U = [g.UnitEnum(u) for u in geo.UNITS]
-    vals = [0, 1, 12.5, 33.33] if tier == "quick" else [0, 1, 12.5, 33.33, 90, 0.1 + 0.2, 0.3]
+    # values that differ by less than any printing or rounding resolution are still different values
+    vals = [0, 0.001, 1, 12.5, 33.33, 33.334, 10, 10.004] if tier == "quick" else [0, 0.001, 1, 12.5, 33.33, 33.334, 10, 10.004, 10.0000001, 90, 0.1 + 0.2, 0.3]
     sizes = [g.Size(v, u) for v in vals for u in U]
-    small = [g.Size(v, u) for v in (0, 1) for u in U[:3]]
+    small = [g.Size(v, u) for v in (0, 1) for u in U[:3]] + [g.Size(0.001, U[0]), g.Size(1.004, U[1])]
     points = [g.Point(a, b) for a in small for b in small]
     stretches = [g.Stretch(a, b) for a in small for b in small]
     pads = []
